@@ -3,44 +3,83 @@ CHECK = {
     "level": "exploration",
     "exhaustive": False,
     "rule": "isgr part: script s = seeded list of 8-16 steps after a seeded initial population of 3 documents (local put / delete on the active or the passive "
-            "peer - a put on a live document is an edit, on a tombstone a resurrection, on a missing one a creation; start / await / stop / deterministic "
-            "mid-flight stop of the replication; arming one local write inside the compute->CAS window of the next replicated write of a document); every script "
-            "is run in the three directions push, pull, pushAndPull, each with a seeded mode (one-shot or continuous) and checkpoint interval (default or 5 ms) "
-            "over the script's seeded sub-protocol (V4 version vectors or V3 revision trees). distinct_nontrivial = distinct (script, direction, sub-protocol, mode) "
-            "in which both peers had acknowledged local writes. "
-            "blip part: case = seeded script of client-side and server-side edits / deletes / resurrections of 3 documents with one-shot pushes and pulls of a "
-            "BlipTesterClient (V3 and V4) that holds its own documents.",
+            "peer - a put on a live document is an edit, on a tombstone a resurrection, on a missing one a creation; start / await / stop of the replication; "
+            "deterministic mid-flight stop: the replicated write of one document is parked at the storage boundary (H1) while the others go through, the "
+            "replication is stopped, then the parked write goes through late or fails = the in-flight revision is lost; arming one local write inside the "
+            "compute->CAS window of the next replicated write of a document). Every script is run in the three directions push, pull, pushAndPull, each with a "
+            "seeded mode (one-shot or continuous) and checkpoint interval (default or 5 ms), over the script's seeded sub-protocol (V4 version vectors or V3 "
+            "revision trees). distinct_nontrivial = distinct (script, direction, sub-protocol, mode) in which both peers had acknowledged local writes. "
+            "blip part: script = seeded list of client-side and server-side puts / deletes of 3 documents, one-shot pushes and pulls of a BlipTesterClient that "
+            "holds its own documents, and server-side writes armed into the compute->CAS window of a pushed revision; every script is run with a V3 and a V4 "
+            "client. isgr-race part (thorough tier): the isgr workload under the race detector.",
     "parts": [
         {"name": "isgr", "pkg": "rest", "run": "^TestVerif_C06_ISGR$", "timeout_q": 900, "timeout_t": 3300, "env": {"SG_TEST_BUCKET_POOL_SIZE": "16"}},
-        {"name": "blip", "pkg": "rest", "run": "^TestVerif_C06_Blip$", "timeout_q": 600, "timeout_t": 3300, "env": {"SG_TEST_BUCKET_POOL_SIZE": "10"}},
+        {"name": "blip", "pkg": "rest", "run": "^TestVerif_C06_Blip$", "timeout_q": 600, "timeout_t": 2400, "env": {"SG_TEST_BUCKET_POOL_SIZE": "10"}},
+        {"name": "isgr-race", "pkg": "rest", "race": True, "thorough_only": True, "run": "^TestVerif_C06_ISGRRace$", "timeout_q": 900, "timeout_t": 3000,
+         "env": {"SG_TEST_BUCKET_POOL_SIZE": "12"}},
     ],
-    "min_evals": 60,
+    "min_evals": 140,
     "min_counters": {
         "isgr.scripts_x_directions": 75,
-        "isgr.replication_runs": 200,
-        "isgr.documents_compared": 250,
-        "isgr.cases_caught_up": 50,
-        "isgr.cases_converged": 50,
-        "isgr.idle_reruns_checked": 80,
-        "isgr.conflicts_resolved": 10,
-        "isgr.local_writes": 500,
+        "isgr.replication_runs": 300,
+        "isgr.replication_runs_oneshot": 150,
+        "isgr.replication_runs_continuous": 50,
+        "isgr.local_writes": 450,
+        "isgr.local_delete": 40,
+        "isgr.local_resurrect": 5,
+        "isgr.documents_compared": 300,
+        "isgr.cases_caught_up": 60,
+        "isgr.cases_converged": 55,
+        "isgr.idle_reruns_checked": 90,
+        "isgr.conflicts_resolved": 40,
+        "isgr.midflight_stops_with_parked_revision": 5,
+        "isgr.mid_window_local_writes": 2,
+        "blip.cases_V3": 40,
+        "blip.cases_V4": 40,
+        "blip.client_pushes": 200,
+        "blip.client_pulls": 200,
+        "blip.client_writes": 200,
+        "blip.documents_compared": 200,
+        "blip.cases_converged": 65,
+        "blip.idle_reruns_checked": 65,
+        "blip.server_documents_pushed_by_client": 100,
+        "blip.server_documents_pulled_by_client": 100,
     },
+    "race_files": ["db/active_replicator.go", "db/active_replicator_common.go", "db/active_replicator_push.go", "db/active_replicator_pull.go",
+                   "db/active_replicator_checkpointer.go", "db/blip_handler.go", "db/blip_sync_context.go", "db/sg_replicate_cfg.go"],
+    "race_state": ["expectedSeqs", "processedSeqs", "idAndRevLookup", "lastCheckpointSeq", "lastLocalCheckpointRevID", "lastRemoteCheckpointRevID",
+                   "blipSender", "blipSyncContext", "checkpointerCtx", "Checkpointer", "state", "lastError", "initialStatus", "changesPendingResponseCount",
+                   "activeReplicators", "pendingInsertions", "allowedAttachments"],
     "assumptions": [
         "Community Edition build: default conflict resolver only (custom / localWins / remoteWins resolvers and delta sync are EE and not exercised)",
-        "caught up = one complete run of the replication (one-shot: until it reports stopped in every direction; continuous: until the processed sequence covers the newest revision of every document on the sending side and nothing moved over two polls, then stopped) that leaves both peers' sequence counters and every document's cas / sequence / revision unchanged; at most 7 runs, otherwise inconclusive",
-        "revision ancestry is read from the union of both peers' stored revision trees; version-vector containment from the stored _vv (cv, pv, mv)",
+        "caught up = one complete run of the replication, started after each peer's own changes feed lists every document at its current sequence, that "
+        "(a) has processed the newest revision of every document on the sending side(s) (status last_seq_push / last_seq_pull covers the documents' "
+        "sequences) and (b) leaves both peers' sequence counters and every document's cas / sequence / revision unchanged; one-shot: run = until every "
+        "direction reports stopped; continuous: run = until (a) holds and neither the status counters nor any peer state moved over two consecutive polls, "
+        "then stopped; at most 7 runs, otherwise the case is inconclusive",
+        "what a peer 'knows' is read from its stored metadata (admin _raw): revision tree for the revision-tree protocol, version vector (cv, pv, mv) for "
+        "the version-vector protocol; bodies are read through the admin document GET of the current revision",
+        "the lost in-flight revision of a mid-flight stop is produced by failing the parked storage write after the replication has stopped (nothing is "
+        "failed while a replication is connected)",
+        "blip part: the test client's clock is set far behind the server's so that every conflict it resolves on pull is won by the server's revision "
+        "(the test client cannot push back a local win); the client re-proposes documents it pulled, so the number of rev messages it re-sends in an "
+        "idle round is recorded, not judged",
     ],
 }
 
 META = {
     "technique": "runtime monitoring: seeded scripts of local writes on two real Sync Gateway databases interleaved with start / stop / mid-flight stop / restart of a "
-                 "real inter-Sync-Gateway replication (and of a BLIP client), storage hook H1 used to park replicated writes (mid-flight stop), to force local writes "
-                 "into the compute->CAS window of replicated writes and to log document writes of an idle re-run; admin _raw / GET comparison of both peers at bounded quiescence",
-    "level_text": "Exploration. For every executed script the check waits (state predicates, watchdog => inconclusive) until a complete replication run changes neither peer, "
-                  "then demands per direction what that direction can achieve (push: passive never behind the active; pull: the active holds a revision containing the passive's current "
-                  "one, no conflict left; pushAndPull: identical current revision / version, body and tombstone state), that the idle re-run transferred nothing (status counters and "
-                  "storage log), and - after the complementary direction has caught up too - that both peers are identical. The resolver's winner is never predicted.",
-    "level_note": "Trusted: the harness readers of _raw / _vv, the VerifBucket wrapper, rosmar. Bounds: 3 documents, scripts of at most ~20 steps, one replication definition per case, "
-                  "default resolver, no attachments, no channel filters, single collection; BLIP handler goroutines are not step-scheduled (interleavings come from free-running "
-                  "goroutines plus the two H1 devices).",
+                 "real inter-Sync-Gateway replication, and of a BLIP client against one database; storage hook H1 used to park replicated writes (mid-flight stop, lost "
+                 "in-flight revision), to force local writes into the compute->CAS window of replicated writes and to log the document writes of an idle re-run; "
+                 "admin _raw / GET comparison of both sides at bounded quiescence; race detector on the same workload in the thorough tier",
+    "level_text": "Exploration. For every executed script the check waits (state predicates only; watchdog => inconclusive) until a complete replication run has processed the "
+                  "newest revisions of the sending side and changes neither peer, then demands per direction what that direction can achieve (push: the passive knows the "
+                  "active's current revision unless it holds something the active does not know; pull: the active knows the passive's current revision of every document and "
+                  "is left with at most one live leaf; pushAndPull: identical current revision id (V3) / current version (V4), body and tombstone state), that this idle "
+                  "re-run transferred nothing (status counters docs_read / docs_written and the storage log of both peers), and - after a pushAndPull epilogue has caught "
+                  "up too - that both peers are identical. The BLIP client part demands the same identity between client and server after pull + push rounds. The "
+                  "resolver's winner is never predicted.",
+    "level_note": "Trusted: the harness readers of _raw / _vv, the VerifBucket wrapper, the repository's BlipTesterClient (a test double of Couchbase Lite), rosmar. Bounds: 3 "
+                  "documents, scripts of at most ~20 steps, one replication definition per case, default resolver, no attachments, no channel filters, single collection; "
+                  "BLIP handler goroutines are not step-scheduled (interleavings come from free-running goroutines plus the two H1 devices).",
 }
